@@ -73,7 +73,7 @@ def fd(rng):
     m = rng.getrandbits(52); e = rng.randrange(1, 2047 - 1) if rng.random() < 0.3 else rng.randrange(1023 - 70, 1023 + 200)
     return (rng.getrandbits(1) << 63) | (e << 52) | m
 
-def gen_args(rng, name, sig, P=None, mask=0):
+def gen_args(rng, name, sig, P=None, mask=0, P2=None, mask2=0):
     """returns list of token strings per parameter (list of lists), honouring preconditions"""
     toks = []
     ucount = 0
@@ -110,9 +110,15 @@ def gen_args(rng, name, sig, P=None, mask=0):
         first = min(group)
         for i in group | {P}: toks[i] = toks[first]
         group = group | {P}
+    group2 = set()
+    if P2 is not None and mask2:
+        group2 = {i for i in range(len(sig)) if mask2 >> i & 1}
+        f2 = min(group2)
+        for i in group2 | {P2}: toks[i] = toks[f2]
+        group2 = group2 | {P2}
     def val(i): return int(toks[i][0], 16) if not toks[i][0].startswith("-") else -int(toks[i][0][1:], 16)
     def setval(i, v):
-        for j in (group if i in group else {i}): toks[j] = [hx(v)]
+        for j in (group if i in group else group2 if i in group2 else {i}): toks[j] = [hx(v)]
     zi = [i for i, c in enumerate(sig) if c in "Zz"]
     # preconditions, re-established after grouping
     if name == "mpz_divexact":
